@@ -114,9 +114,14 @@ func glueOK(s string) (string, bool) {
 
 func c15Synthetic(c *core.Ctx, sc synthCase, idx int) {
 	zero := zeroOf(sc.Kind)
-	s := &gen.Synth{R: core.NewRand(c.P.Seed, "C15", idx), Nasty: false}
+	s := &gen.Synth{R: core.NewRand(c.P.Seed, "C15", idx), Nasty: false, Share: idx%4 == 3}
 	n := s.Build(zero, sc.Present)
 	w := core.Witness{Cfg: map[string]string{"kind": sc.Kind, "present": presentString(zero, sc.Present)}}
+	if s.Shared > 0 {
+		// a tree built by re-using a node ("$a + $a" with one variable node): it is printed wherever it stands
+		w = w.With("shared", "one node object stands twice in a list")
+		c.Add("synthetic_nodes_with_a_repeated_list_element", 1)
+	}
 	out, p := printString(n)
 	if p != nil {
 		c.Violation(p.Sig, "printer panicked: "+p.Msg, w)
